@@ -195,7 +195,8 @@ def _sel(n, m):
     cols = [None, 0, -1, m - 1, slice(None), slice(0, 1), slice(1, 3), slice(1, None), slice(None, None, -1), slice(None, None, 2),
             slice(m, None, -2), slice(-1, -m - 1, -2),
             [0], [m - 1, 0] if m else [], list(range(m))[::-1], [i for i in range(m) if i % 2 == 0], list(range(1, m)) + [0] if m else [],
-            np.array([bool(i % 2) for i in range(m)], dtype=bool), np.array([i != 1 for i in range(m)], dtype=bool), m, -m - 1, [m]]
+            np.array([bool(i % 2) for i in range(m)], dtype=bool), np.array([i != 1 for i in range(m)], dtype=bool), m, -m - 1, [m],
+            [0, 1, 0] if m > 1 else [0, 0]]      # repeated positions (fix ecbc9f2): duplicate labels at Frame level, plain selection at TypeBlocks level
     return rows, cols
 
 
@@ -504,6 +505,18 @@ STRING_RESULT_OPS = frozenset(('op:mul-series', 'op:mul-array2d', 'op:mul2', 'op
 FILL_OPS = frozenset(('fillna(str)', 'assign.bloc(frame)'))
 
 
+CELLWISE_RAISING = frozenset(('astype', 'op', 'neg', 'pos', 'abs', 'invert', 'round', 'clip'))
+
+
+def _has_multi_object_block(kinds, layout):
+    pos = 0
+    for w, _ in layout:
+        if w > 1 and kinds[pos] == 'O':
+            return True
+        pos += w
+    return False
+
+
 def op_family(name):
     for r in REDUCTIONS:
         if name.startswith(r) and name[len(r):len(r) + 1] in ('0', '1'):
@@ -529,8 +542,8 @@ def finding_for(name, kinds, n, layout):
         return 'C03-fill-block-dtype'
     if name in STRING_RESULT_OPS and multi and any(k in 'UO' for k in kinds):
         return 'C03-str-itemsize'
-    if name.startswith('dropna1') and m == 1:
-        return 'C03-dropna-1d-block'
+    if fam in CELLWISE_RAISING and _has_multi_object_block(kinds, layout):
+        return 'C03-object-block-error-order'
     if name.startswith(('fillna_forward1', 'fillna_backward1')) and len({column(k, 0, 0).dtype for k in kinds}) > 1:
         return 'C03-fill-axis1-block-dtype'
     return None
@@ -578,7 +591,7 @@ def short(o, limit=160):
 QUICK_KINDS = ['', 'i', 'f', 'U', 'O', 'b', 'ii', 'if', 'fO', 'UU', 'iii', 'iif', 'UUf', 'bbO', 'iiff', 'iUUi']
 THOROUGH_FRAMES = (
     [(k, (0, 1, 2, 3, 4)) for k in ['', 'i', 'f', 'U', 'O', 'b', 'M', 'h']]
-    + [(k, (0, 1, 3)) for k in ['ii', 'if', 'fO', 'UU', 'bb', 'OO', 'gg', 'hi']] + [('OM', (2,)), ('fgb', (2,))]
+    + [(k, (0, 1, 3)) for k in ['ii', 'if', 'fO', 'UU', 'bb', 'OO', 'gg', 'hi']] + [('OM', (2,)), ('fgb', (2,)), ('fOO', (2,))]
     + [(k, (1, 3)) for k in ['iii', 'iif', 'fii', 'UUf', 'bbO', 'hhi', 'MMi', 'ggi', 'bib']]
     + [('iiii', (0, 1, 3))] + [(k, (1, 3)) for k in ['iiff', 'iUUi', 'OOii']] + [(k, (3,)) for k in ['ifif', 'ffff', 'fiib', 'hhgg']]
     + [('iiiii', (3,)), ('iifff', (3,)), ('ifbUO', (1,))])
@@ -588,7 +601,7 @@ ALL_KINDS = 'ihgfbUOM'
 
 QUICK_FRAMES = [('', (0, 1, 3)), ('i', (0, 1, 3)), ('f', (0, 1, 3)), ('U', (0, 2)), ('O', (1, 3)), ('ii', (0, 1, 3)), ('if', (0, 1, 3)),
                 ('UU', (1, 3)), ('fO', (0, 2)), ('iii', (1, 3)), ('iif', (0, 2)), ('bbO', (1, 3)), ('iiff', (1, 3)), ('iUUi', (0, 2)),
-                ('hi', (2,)), ('OM', (2,)), ('fgb', (2,)), ('iiii', (3,))]
+                ('hi', (2,)), ('OM', (2,)), ('fgb', (2,)), ('fOO', (2,)), ('iiii', (3,))]
 
 
 def frame_space(ctx):
@@ -902,8 +915,6 @@ def model_cases(ctx, kinds, n):
                     ctx.count('model:dropna')
                     txt, r = res_lit(lambda: f._blocks.dropna_to_keep_locations(axis=1, condition=cond)[1], lambda a: lit.lst([lit.b(x) for x in a.tolist()]))
                     tags = {'stratum': 'model', 'op': 'dropna'}
-                    if m == 1:
-                        tags['finding'] = 'C03-dropna-1d-block'
                     yield Case('model:dropna_keep_columns', dict(base, replay=mk(f'f._blocks.dropna_to_keep_locations(axis=1, condition=np.{cname})'), condition=cname),
                                m=f'res_eqb (list_eqb Bool.eqb) (Ok (M_dropna_keep_columns isna {ccoq} {T})) {txt}',
                                s=f'res_eqb (list_eqb Bool.eqb) (Ok (S_dropna_keep_columns isna {ccoq} {C})) {txt}',
